@@ -459,7 +459,7 @@ func (h *httpServerHandler) handlePostResponse(ctx context.Context, w http.Respo
 	h.logger.Debugf("Received JSON-RPC response for session %s, ID: %v", sessionID, response.ID)
 
 	// Prepare response data
-	requestIDStr := fmt.Sprintf("%v", response.ID)
+	requestIDStr := pendingRequestKey(sessionID, response.ID)
 	var responseMessage *json.RawMessage
 
 	// Handle error response.
@@ -756,7 +756,7 @@ func (h *httpServerHandler) SendRequest(ctx context.Context, sessionID string, r
 	}
 
 	// Register request and get response channel.
-	requestIDStr := fmt.Sprintf("%v", request.ID)
+	requestIDStr := pendingRequestKey(sessionID, request.ID)
 	responseChan := h.responseManager.RegisterRequest(requestIDStr)
 	defer h.responseManager.UnregisterRequest(requestIDStr)
 
@@ -806,6 +806,12 @@ func (h *httpServerHandler) isValidPath(requestPath string) bool {
 		return true
 	}
 	return requestPath == h.serverPath
+}
+
+// pendingRequestKey identifies a pending server-to-client request: the answer must come from the
+// session the request was sent to, so the session ID is part of the key.
+func pendingRequestKey(sessionID string, requestID interface{}) string {
+	return sessionID + "|" + fmt.Sprintf("%v", requestID)
 }
 
 // responseManager manages pending requests and their response channels.
